@@ -1,7 +1,7 @@
 """Harness modules, one per property.  Importing this package registers all of them."""
 import importlib
 
-MODULES = ["c01", "c02", "c03", "c09", "c10", "c06", "c05", "c14", "c16", "c11", "c12", "c08", "c13", "c18", "c04", "c07", "c15", "c19", "c20"]
+MODULES = ["c01", "c02", "c03", "c09", "c10", "c06", "c05", "c14", "c16", "c11", "c12", "c08", "c13", "c18", "c04", "c07", "c15", "c19", "c20", "c17"]
 
 
 def load_all():
